@@ -38,6 +38,16 @@ def stream_load_transfer(R, tier, seed):
                 cid = cc.add(pre + "[%s; %s; %s]" % (e_out, e_JF, e_Jm))
                 desc = {"comp": "LoadTransfer", "kind": kind, "nx": nx, "ny": ny, "fem_origin": w2}
                 meta.append((cid, desc))
+                if rep == 0 and (nx, ny) in ((2, 3), (3, 3)):
+                    # wing box: the spar location comes from the section data, whether or not the dictionary also has a fem_origin entry
+                    for extra in ({}, {"fem_origin": 0.25}):
+                        wb = gen.wingbox_surface(mesh, symmetry=(kind != "full"), **extra)
+                        o2, _, _ = core.run_comp(LoadTransfer(surface=wb), {"def_mesh": mesh, "sec_forces": F}, want_J=False)
+                        xu, yu, yl = np.real(wb["data_x_upper"]), np.real(wb["data_y_upper"]), np.real(wb["data_y_lower"])
+                        pre2 = "let mesh := a3 %s 3 %s in let F := a3 %s 3 %s in let w1 := @gen_lt_w1 float Fops in let w2 := wingbox_fem_origin %s %s %s %s %s %s in " % (
+                            nat(ny), arr(mesh), nat(npy), arr(F), fl(xu[0]), fl(yu[0]), fl(yl[0]), fl(xu[-1]), fl(yu[-1]), fl(yl[-1]))
+                        cid = cc.add(pre2 + "[re (t2 %s 6 (lt_loads %s %s w1 w2 mesh F)) %s; 0; 0]" % (nat(ny), nat(npx), nat(npy), arr(o2["loads"])))
+                        meta.append((cid, {"comp": "LoadTransfer(wingbox)", "kind": kind, "nx": nx, "ny": ny, "fem_origin_entry": extra.get("fem_origin")}))
                 R.count("LoadTransfer/%s" % kind)
                 R.mark("LT", kind, nx, ny, rep)
                 R.sample({"component": "LoadTransfer", **desc, "def_mesh[0,0]": mesh[0, 0].tolist(), "sec_forces[0,0]": F[0, 0].tolist()})
